@@ -1,6 +1,7 @@
 import TlsProofs.OrderCheck
 import TlsProofs.OrderSafety
 import TlsProofs.OrderPost
+import TlsModel.OrderGenEval
 /-
   C06 — handshake messages are accepted only in the order the protocol allows.
 
@@ -359,5 +360,85 @@ theorem late_ccs_fatal (c : Cfg) (r : Run) (m : Msg) (hp : r.st.isPost = true) (
     exfalso
     revert hx hp
     cases r.st <;> simp [St.isPost, expectsCCS]
+
+/-! ### 7. tie by regeneration
+
+  `TlsModel/Gen/Order.lean` is rewritten on every run by translate/gen_order.py from the AST of
+  tlslite/tlsconnection.py (the two handshake helpers and the thirteen flow functions they call: every
+  `_getMsg` with its expected content / handshake types, the assignments to the variables that hold
+  such types, the `if`s they sit under as named guard atoms, sends, key changes, defragmenter
+  checks, order-level `_sendError`s, `_handshakeDone`) and of tlslite/tlsrecordlayer.py (`_getMsg`'s
+  aligned types, `readAsync`'s dispatch).  `TlsModel/OrderGenEval.lean` (hand-written) executes
+  these transcripts.  The theorems below hold of the REGENERATED data: an edit of the flows that
+  changes what is expected where breaks them statically (or poisons the transcript). -/
+
+open Gen in
+def genOk (c : Cfg) : Bool :=
+  matchesGrammar c && noExtraType c && keyChangesGuarded c && postDispatchMatches c
+
+theorem gen_check_client_tls13 : (cfgsOf .client .tls13).all genOk = true := by decide +kernel
+theorem gen_check_server_tls13 : (cfgsOf .server .tls13).all genOk = true := by decide +kernel
+theorem gen_check_client_tls : (cfgsOf .client .tls).all genOk = true := by decide +kernel
+theorem gen_check_server_tls : (cfgsOf .server .tls).all genOk = true := by decide +kernel
+theorem gen_check_client_ssl3 : (cfgsOf .client .ssl3).all genOk = true := by decide +kernel
+theorem gen_check_server_ssl3 : (cfgsOf .server .ssl3).all genOk = true := by decide +kernel
+
+theorem genOk_of_valid (c : Cfg) (h : c.valid = true) : genOk c = true := by
+  have hm := mem_cfgsOf c h
+  have key : ∀ (l : List Cfg), l.all genOk = true → c ∈ l → genOk c = true :=
+    fun l hl hc => List.all_eq_true.mp hl c hc
+  cases hr : c.role <;> cases hv : c.ver <;> rw [hr, hv] at hm
+  · exact key _ gen_check_client_ssl3 hm
+  · exact key _ gen_check_client_tls hm
+  · exact key _ gen_check_client_tls13 hm
+  · exact key _ gen_check_server_ssl3 hm
+  · exact key _ gen_check_server_tls hm
+  · exact key _ gen_check_server_tls13 hm
+
+/-- For every valid configuration the regenerated expectation sequences, run by the evaluator,
+    complete on exactly the sentences of the grammar `lang c` (every completed path is a sentence,
+    every sentence is a completed path — except the `Gen.stricter` ones: CertificateRequest in an
+    SRP+certificate suite and NextProtocol in a resumed handshake, which tlslite-ng refuses), no
+    transcript is poisoned, and the flows end only by `_handshakeDone`. -/
+theorem gen_expectations_match_grammar (c : Cfg) (hv : c.valid = true) : Gen.matchesGrammar c = true := by
+  have := genOk_of_valid c hv
+  simp only [genOk, Bool.and_eq_true] at this
+  exact this.1.1.1
+
+/-- …in particular every trace on which the transcribed flows reach `_handshakeDone` is permitted -/
+theorem gen_completed_in_grammar (c : Cfg) (hv : c.valid = true) (t : List MsgKind) (k : Bool)
+    (h : Gen.Res.path t true k ∈ Gen.genRun c) : lang c t = true := by
+  have hm := gen_expectations_match_grammar c hv
+  simp only [Gen.matchesGrammar, Bool.and_eq_true] at hm
+  have hall := hm.1.1.2
+  rw [List.all_eq_true] at hall
+  apply hall
+  simp only [Gen.completed, List.mem_filterMap]
+  exact ⟨_, h, rfl⟩
+
+/-- No `_getMsg` of the regenerated flows admits — and the flow keeps — a message type the grammar
+    forbids at that point: every prefix with which the flows arrive at their next `_getMsg` (or
+    complete) can still be extended to a sentence of the grammar.  (The edit of seeded mutant
+    C06-r4-unsolicited-compressed-cert-after-certreq breaks exactly this.) -/
+theorem gen_no_extra_type_admitted (c : Cfg) (hv : c.valid = true) : Gen.noExtraType c = true := by
+  have := genOk_of_valid c hv
+  simp only [genOk, Bool.and_eq_true] at this
+  exact this.1.1.2
+
+/-- Every `_changeReadState` of the regenerated flows is preceded, with no `_getMsg` in between, by
+    a check that the defragmenter holds no handshake bytes — or by a `_getMsg` that itself checks the
+    alignment (TLS 1.3, version already set, type in the regenerated `alignedTypes`); and every
+    completed TLS 1.3 path has executed `_middlebox_compat_mode = False`. -/
+theorem gen_key_change_guarded (c : Cfg) (hv : c.valid = true) : Gen.keyChangesGuarded c = true := by
+  have := genOk_of_valid c hv
+  simp only [genOk, Bool.and_eq_true] at this
+  exact this.1.2
+
+/-- The regenerated if/elif chain of `readAsync` admits exactly the post-handshake handshake types
+    the automaton's `stepDone` takes, for every role, key pair, outstanding request and compression -/
+theorem gen_post_dispatch_matches (c : Cfg) (hv : c.valid = true) : Gen.postDispatchMatches c = true := by
+  have := genOk_of_valid c hv
+  simp only [genOk, Bool.and_eq_true] at this
+  exact this.2
 
 end Tls.Order
